@@ -5,12 +5,13 @@ use super::common::*;
 use crate::capture::*;
 use crate::driver::Ctx;
 use crate::io::ChunkedReader;
+use crate::model::container::{ref_write_block, ref_write_header, Codec, MetaLayout, ALL_CODECS};
 use crate::model::*;
 use crate::tape::Tape;
 use serde::de::DeserializeSeed;
 use serde_avro_fast::de::{read::ReaderRead, read::SliceRead, DeserializerConfig, DeserializerState};
 
-pub const RULE: &str = "case = (generated schema, input bytes in {valid encoding in a tape-chosen layout, single-point malformation, valid encoding with random byte edits, arbitrary bytes} followed by a random suffix, target in {generic any-tree, model-directed capture}); each case is decoded from the slice and from chunk-controlled readers for EVERY uniform chunk size 1..=min(len,64), tape-chosen irregular partitions and std BufReader capacities {1,2,3,16,8192}, datum and single-object entry points; \
+pub const RULE: &str = "case = (generated schema, input bytes in {valid encoding in a tape-chosen layout, single-point malformation, valid encoding with random byte edits, arbitrary bytes} followed by a random suffix, target in {generic any-tree, model-directed capture}); each case is decoded from the slice and from chunk-controlled readers for EVERY uniform chunk size 1..=min(len,64), tape-chosen irregular partitions and std BufReader capacities {1,2,3,16,8192}, datum, single-object and container-file entry points (reference-written files in every codec, healthy, byte-edited or truncated); \
 non-trivial = the input has a multi-byte primitive (varint, length prefix, fixed, float, string data) that a 1-byte chunking splits, i.e. len>=2 and at least one multi-byte segment; distinct = hash of (schema JSON, input bytes)";
 
 #[derive(Debug, Clone, PartialEq)]
@@ -193,6 +194,123 @@ pub fn run(tape: &[u8], ctx: &mut Ctx) {
 			evals += 1;
 			if a != b {
 				ctx.violation("C11/single-object-differs", format!("schema {} single-object input {}: slice {:?} vs reader(chunk {k}) {:?}", case.json, hex(&so), a, b));
+			}
+		}
+	}
+	// container-file input: a reference-written file (every codec), healthy or damaged, read through
+	// Reader::from_slice and through chunk-controlled readers; the sequence of results must be the same
+	{
+		let codec = *t.pick(ALL_CODECS);
+		let sync: [u8; 16] = std::array::from_fn(|_| t.byte());
+		let mut meta: Vec<(String, Vec<u8>)> = vec![("avro.schema".to_string(), case.json.clone().into_bytes())];
+		if codec != Codec::Null || t.bool() {
+			meta.push(("avro.codec".to_string(), codec.name().as_bytes().to_vec()));
+		}
+		let mut file = ref_write_header(&meta, &MetaLayout { partition: vec![], negative: vec![] }, &sync);
+		let nblocks = t.small(3);
+		let mut nvalues = 0;
+		let mut payloads: Vec<(usize, usize)> = Vec::new();
+		let mut payload_hit = false;
+		for _ in 0..nblocks {
+			let n = t.small(3);
+			let mut data = Vec::new();
+			for _ in 0..n {
+				let v = ValueGen::new(&mut t, &env, ValCfg { max_str: 40, max_coll: 4, max_nodes: 60, ..ValCfg::default() }).gen(&case.schema);
+				match encode_single(&env, &case.schema, &v) {
+					Ok(b) => data.extend_from_slice(&b),
+					Err(e) => {
+						ctx.violation("harness/model-encode", e);
+						return;
+					}
+				}
+			}
+			nvalues += n;
+			let before = file.len();
+			ref_write_block(&mut file, codec, n, &data, &sync);
+			// byte range of the (compressed) block data: after the two varints, before the sync marker
+			let mut d = Dec::new(&file[before..]);
+			let _ = d.long();
+			let clen = d.long().unwrap_or(0) as usize;
+			payloads.push((file.len() - 16 - clen, file.len() - 16));
+		}
+		let damage = t.below(4);
+		match damage {
+			0 | 1 => {}
+			2 => {
+				for _ in 0..1 + t.below(3) {
+					let i = t.below(file.len());
+					file[i] = t.byte();
+					payload_hit |= codec != Codec::Null && payloads.iter().any(|(a, b)| i >= *a && i < *b);
+				}
+			}
+			_ => {
+				let n = t.below(file.len() + 1);
+				file.truncate(n);
+			}
+		}
+		ctx.label(format!("container:{}:{}", codec.name(), ["healthy", "healthy", "edited", "truncated"][damage]));
+		fn drive<'de, R, E>(rd: Result<serde_avro_fast::object_container_file_encoding::Reader<R>, E>) -> Vec<String>
+		where
+			R: serde_avro_fast::de::read::ReadSlice<'de> + serde_avro_fast::de::read::take::Take + std::io::BufRead,
+			<R as serde_avro_fast::de::read::take::Take>::Take: serde_avro_fast::de::read::ReadSlice<'de> + std::io::BufRead,
+		{
+			let mut rd = match rd {
+				Ok(r) => r,
+				Err(_) => return vec!["open-error".into()],
+			};
+			let mut out = Vec::new();
+			for _ in 0..24 {
+				let ds = DigestState::new(20_000);
+				match rd.deserialize_seed_next(Digest { state: &ds }) {
+					Ok(Some(())) => out.push(format!("value {:016x}/{}", ds.hash.get(), ds.events.get())),
+					Ok(None) => {
+						out.push("end".into());
+						break;
+					}
+					Err(_) => {
+						// what follows an error is not compared (the statement speaks of the outcome)
+						out.push("error".into());
+						break;
+					}
+				}
+			}
+			out
+		}
+		// Files that end without an error must give identical sequences. When both inputs end in
+		// an error (damaged file) the values delivered before it must agree position by position,
+		// but the error may surface at a different value: a slice knows up front that a block's
+		// advertised size exceeds the input, a stream only finds out when it runs dry (the values
+		// before the error are a genuine prefix either way, which is what C17 demands).
+		fn same_outcome(a: &[String], b: &[String]) -> bool {
+			let is_err = |s: &[String]| matches!(s.last().map(|x| x.as_str()), Some("error") | Some("open-error"));
+			if is_err(a) && is_err(b) {
+				let (va, vb) = (&a[..a.len() - 1], &b[..b.len() - 1]);
+				let n = va.len().min(vb.len());
+				va[..n] == vb[..n]
+			} else {
+				a == b
+			}
+		}
+		let a = drive(serde_avro_fast::object_container_file_encoding::Reader::from_slice(&file));
+		if damage < 2 && (a.len() != nvalues + 1 || a.last().map(|s| s.as_str()) != Some("end") || a.iter().any(|s| s == "error")) {
+			ctx.violation("C11/healthy-container-slice-outcome", format!("schema {} file {} ({} values, codec {}): slice results {:?}", case.json, trunc(&hex(&file), 600), nvalues, codec.name(), a));
+		}
+		for k in [1usize, 2, 3, 7, 16, 61, 4096] {
+			let mut rd = ChunkedReader::uniform(&file, k);
+			rd.call_budget = 64 * (file.len() as u64 + 16) + 100_000;
+			let b = drive(serde_avro_fast::object_container_file_encoding::Reader::from_reader(rd));
+			evals += 1;
+			if !same_outcome(&a, &b) {
+				ctx.violation(format!("C11/container-differs{}", if payload_hit { format!("/{}-corrupt-compressed-payload", codec.name()) } else { String::new() }), format!("schema {} container file {} (codec {}, {}): slice {:?} vs reader(chunk {k}) {:?}", case.json, trunc(&hex(&file), 600), codec.name(), ["healthy", "healthy", "edited", "truncated"][damage], a, b));
+				break;
+			}
+		}
+		{
+			let br = std::io::BufReader::with_capacity(1 + t.below(9), std::io::Cursor::new(&file[..]));
+			let b = drive(serde_avro_fast::object_container_file_encoding::Reader::from_reader(br));
+			evals += 1;
+			if !same_outcome(&a, &b) {
+				ctx.violation(format!("C11/container-differs{}", if payload_hit { format!("/{}-corrupt-compressed-payload", codec.name()) } else { String::new() }), format!("schema {} container file {} (codec {}): slice {:?} vs BufReader {:?}", case.json, trunc(&hex(&file), 600), codec.name(), a, b));
 			}
 		}
 	}
